@@ -16,11 +16,11 @@ fn case_json(start: &Pos, moves: &[Mv]) -> Value {
 }
 
 /// All draw-claim assertions at the current point of the game.
-fn check_point(ctx: &mut Ctx, g: &Game, m: &GameModel, case: &dyn Fn() -> Value) -> Result<(), Violation> {
+fn check_point(ctx: &mut Ctx, g: &Game, m: &GameModel, fen_clock: u32, case: &dyn Fn() -> Value) -> Result<(), Violation> {
     ctx.eval();
     let (cs, cf) = m.claimable();
     let got = g.can_declare_draw();
-    let plies = m.mover_count();
+    let plies = m.mover_count() as usize;
     let three_s = m.occurrences(&m.keys_strict) >= 3;
     let three_f = m.occurrences(&m.keys_fide) >= 3;
     if m.reversible >= 100 {
@@ -31,9 +31,19 @@ fn check_point(ctx: &mut Ctx, g: &Game, m: &GameModel, case: &dyn Fn() -> Value)
     if three_s || three_f {
         ctx.class("point:threefold");
     }
+    // a game loaded from FEN text that carries a half-move clock: until the first pawn move or
+    // capture *in the game* the statement's "last 100 half-moves" can be read with or without the
+    // half-moves the text says came before; where the two readings differ nothing is asserted.
+    // After a pawn move or capture the text's clock has nothing left to say
+    let clock_matters = fen_clock > 0 && m.reversible as usize == plies && m.result().is_none() && !cs && m.reversible + fen_clock >= 100;
+    if fen_clock > 0 {
+        ctx.class(if m.reversible as usize == plies { "point:loaded-with-half-move-clock,nothing-irreversible-played-yet" } else { "point:loaded-with-half-move-clock,after-a-pawn-move-or-capture" });
+    }
     if cs != cf {
         ctx.class("point:ambiguous-position-identity(not asserted)");
         ctx.count("ambiguous_identity", 1);
+    } else if clock_matters {
+        ctx.count("fen_clock_reading_ambiguous(not asserted)", 1);
     } else if got != cs {
         let why = format!(
             "{} half-moves played, {} consecutive half-moves without pawn move or capture, current position occurred {} times (strict identity) / {} times (FIDE identity), result {:?}",
@@ -96,14 +106,22 @@ pub fn check_history(ctx: &mut Ctx, start: &Pos, src: &mut MoveSource, max_plies
             return Ok(());
         }
     };
+    // games loaded from text get the clocks a FEN writer would put there (a pure function of the
+    // start position, so a replay uses the same text); the library's own rendering says "0 1"
+    let (half, full) = if fp(start) % 4 == 3 { (0, 1) } else { Pos::clocks_for(fp(&(start, "clocks"))) };
+    let mut fen_clock = 0u32;
     let mut g = if *start == Pos::startpos() {
         Game::new()
     } else if fp(start) % 2 == 0 {
         Game::new_with_board(b0)
     } else {
-        match Game::from_str(&start.fen()) {
-            Ok(g) => g,
-            Err(_) => {
+        fen_clock = half;
+        let text = start.fen_with_clocks(half, full);
+        #[allow(deprecated)]
+        let loaded = if (fp(start) >> 3) % 2 == 0 { Game::from_str(&text).ok() } else { Game::new_from_fen(&text) };
+        match loaded {
+            Some(g) => g,
+            None => {
                 ctx.reject();
                 return Ok(());
             }
@@ -118,7 +136,7 @@ pub fn check_history(ctx: &mut Ctx, start: &Pos, src: &mut MoveSource, max_plies
         {
             let case = || case_json(start, &moves);
             ctx.set_case(case());
-            check_point(ctx, &g, &m, &case)?;
+            check_point(ctx, &g, &m, fen_clock, &case)?;
         }
         max_rev = max_rev.max(m.reversible);
         saw_three |= m.occurrences(&m.keys_strict) >= 3;
